@@ -19,7 +19,7 @@ def shards(tier):
 
 def floors(tier):
     return {"cases": 5000, "padded": 1500, "pad_smaller_or_negative": 1500, "with_dot": 500, "error_paths": 1500,
-            "batches": 2000, "vocabulary_object_reused": 500}
+            "batches": 2000, "vocabulary_object_reused": 500, "vocabulary_grown_in_place": 1000}
 
 
 def run(ctx):
@@ -117,6 +117,27 @@ def run(ctx):
             e6 = call_guard(lambda: sf.batch_flat_hot_to_selfies(ragged, itos))
             if e6[0] == "ok":
                 ctx.finding("ragged-vector-accepted", payload, repr(e6)[:100])
+        # the same vocabulary object grows in place (a new symbol is appended) and is used again at once
+        if it % 2 == 0:
+            new_sym = "[Zq%d]" % (it % 7)
+            stoi[new_sym] = len(stoi)
+            itos[len(itos)] = new_sym
+            ctx.count("vocabulary_grown_in_place")
+            s2 = s + (new_sym if rng.random() < 0.5 else "")
+            toks2 = toks + ([new_sym] if s2 != s else [])
+            exp2 = [stoi[t] for t in toks2] + [stoi['[nop]']] * max(0, pad - len(toks2))
+            r2 = call_guard(lambda: sf.selfies_to_encoding(s2, stoi, pad_to_len=pad, enc_type='both'))
+            if r2[0] != "ok":
+                ctx.finding("encoding-raises-after-vocabulary-growth", payload, repr(r2)[:300])
+            else:
+                lab2, hot2 = r2[1]
+                if lab2 != exp2 or len(hot2) != len(exp2) or any(
+                        len(row) != len(stoi) or sum(row) != 1 or row[e] != 1 for row, e in zip(hot2, exp2)):
+                    ctx.finding("encoding-wrong-after-vocabulary-growth", payload,
+                                "labels %r (want %r), row widths %r (want %d)" % (lab2, exp2, sorted(set(len(r_) for r_ in hot2)), len(stoi)))
+                back2 = call_guard(lambda: sf.encoding_to_selfies(hot2, itos, 'one_hot'))
+                if back2 != ("ok", s2 + '[nop]' * max(0, pad - len(toks2))):
+                    ctx.finding("decoding-not-inverse-after-vocabulary-growth", payload, repr(back2)[:200])
     return
 
 
